@@ -94,6 +94,17 @@ func Suites24() []ref.Suite {
 	return out
 }
 
+// Suites12 are the suites the library can run a session under: the nine plus
+// integrity None (packets then carry no AuthCode and are numbered by the
+// unauthenticated counter) with AES.
+func Suites12() []ref.Suite {
+	out := Suites9()
+	for _, a := range []uint8{ref.AuthSHA1, ref.AuthMD5, ref.AuthSHA256} {
+		out = append(out, ref.Suite{Auth: a, Integ: ref.IntegNone, Conf: ref.ConfAES})
+	}
+	return out
+}
+
 // MustSucceed reports whether a suite is in the must-succeed class.
 func MustSucceed(s ref.Suite) bool { return s.Integ != ref.IntegNone && s.Conf != ref.ConfNone }
 
